@@ -9,6 +9,7 @@ prints the path of the artefact on stdout.
 """
 import fcntl
 import hashlib
+import re
 import os
 import shutil
 import subprocess
@@ -62,7 +63,20 @@ def harness_hash(names):
             with open(os.path.join(d, f), "rb") as fh:
                 h.update(f.encode())
                 h.update(fh.read())
-    for n in names:
+    # the named sources plus every harness source they #include (fz_xxx.cpp includes h_xxx.cpp)
+    todo, seen = list(names), set()
+    while todo:
+        n = todo.pop()
+        if n in seen:
+            continue
+        seen.add(n)
+        with open(os.path.join(HARNESS_DIR, n), "rb") as fh:
+            data = fh.read()
+        for m in re.finditer(rb'^\s*#\s*include\s+"([^"/]+\.cpp)"', data, re.M):
+            inc = m.group(1).decode()
+            if os.path.exists(os.path.join(HARNESS_DIR, inc)):
+                todo.append(inc)
+    for n in sorted(seen):
         with open(os.path.join(HARNESS_DIR, n), "rb") as fh:
             h.update(n.encode())
             h.update(fh.read())
